@@ -86,6 +86,11 @@ def plan(tier, seed):
                                     grid_class=('out_of_range' if i % 6 == 2 else None), allow_beta2=True, allow_dtfrac=True)
         cfg['max_steps'] = min(cfg['max_steps'], 800 if tier == 'quick' else 4000)
         cases.append({'kind': 'free', 'cfg': cfg, 'weight': precip_gen.cfg_weight(cfg)})
+    for j in range(2 if tier == 'quick' else 16):        # complete dissolution above the solvus
+        rng = core.case_rng(seed, PROPERTY, 5000 + j)
+        cfg = precip_gen.gen_dissolution_config(rng, ['nialcr', 'alzr', 'almgsi'][j % 3], tier)
+        cfg['max_steps'] = min(cfg['max_steps'], 2500 if tier == 'quick' else 8000)
+        cases.append({'kind': 'free', 'cfg': cfg, 'weight': 4e4 * cfg['max_steps'] / 100})
     K = K_SINGLE[tier]
     for system in ('nialcr', 'alzr', 'almgsi'):
         if system == 'almgsi' and tier == 'quick':
